@@ -300,6 +300,9 @@ pub fn run_u32s(op: &str, a: &[Arg], st: &mut Stats) -> Option<Out> {
         3 => run_n::<3>(op, rest, st),
         4 => run_n::<4>(op, rest, st),
         5 => run_n::<5>(op, rest, st),
+        6 => run_n::<6>(op, rest, st),
+        7 => run_n::<7>(op, rest, st),
+        8 => run_n::<8>(op, rest, st),
         _ => None,
     }
 }
@@ -367,6 +370,153 @@ fn from_big(b: &BigUint, n: usize) -> Vec<u64> {
     d
 }
 
+
+/// boundary limb set for the carry-directed streams (non-zero members)
+const BL: [u64; 6] = [1, 2, (1 << 31) - 1, 1 << 31, M - 1, M];
+
+fn bl(rng: &mut Rng) -> u64 {
+    // biased towards 2^32-1 and 2^32-2 (they create and sustain runs of all-ones limbs in the accumulator)
+    match rng.below(8) {
+        0 | 1 | 2 => M,
+        3 | 4 => M - 1,
+        5 => 1 << 31,
+        _ => *rng.pick(&BL),
+    }
+}
+
+/// operand with at most `max_nz` non-zero boundary limbs among the positions `< span`
+fn sparse(rng: &mut Rng, n: usize, span: usize, max_nz: u64) -> Vec<u64> {
+    let mut v = vec![0u64; n];
+    if n == 0 || span == 0 {
+        return v;
+    }
+    let k = 1 + rng.below(max_nz);
+    for _ in 0..k {
+        let i = rng.below(span.min(n) as u64) as usize;
+        v[i] = bl(rng);
+    }
+    // contiguous low run of boundary limbs is the most productive shape: make it frequent
+    if rng.coin(1, 2) {
+        let len = 1 + rng.below(span.min(n).min(max_nz as usize) as u64) as usize;
+        for (i, x) in v.iter_mut().enumerate() {
+            *x = if i < len { bl(rng) } else { *x };
+        }
+    }
+    v
+}
+
+/// carry-directed multiplication operands for N >= 3: few non-zero boundary limbs, so that partial products
+/// 0xffffffff * 0xfffffffe etc. pile up into runs of all-ones limbs in the accumulator while further partial products
+/// (a lone 1 / 2^31 / MAX in a high limb of the other operand) push carries through them; placements both below and
+/// across the 2^(32N) boundary
+fn mul_carry_pair(rng: &mut Rng, n: usize) -> (Vec<u64>, Vec<u64>) {
+    let half = n / 2 + 1;
+    let a = match rng.below(4) {
+        0 => sparse(rng, n, n, 3),
+        _ => sparse(rng, n, half, 3),
+    };
+    let mut b = match rng.below(4) {
+        0 => sparse(rng, n, n, 4),
+        _ => sparse(rng, n, half, 3),
+    };
+    // a lone boundary limb higher up in the second operand: its partial products land on the run
+    if n > 2 && rng.coin(2, 3) {
+        let i = 2 + rng.below(n as u64 - 2) as usize;
+        b[i] = *rng.pick(&[1u64, 1, 2, 1 << 31, M, M - 1]);
+    }
+    if rng.coin(1, 2) { (a, b) } else { (b, a) }
+}
+
+
+/// template for "a carry leaves the hi-half addition and meets an all-ones accumulator limb":
+/// row i' puts MAX at limb i'+j0 (MAX * 1) and a large hi word at limb i+j+1 (a[i'] * b[j+d]); in row i = i'+d the
+/// partial product a[i] * b[j] adds its hi word to limb i+j+1, overflows, and the carry enters limb i+j+2 = i'+j0.
+fn mul_template_pair(rng: &mut Rng, n: usize) -> (Vec<u64>, Vec<u64>) {
+    let mut a = vec![0u64; n];
+    let mut b = vec![0u64; n];
+    if n < 4 {
+        return mul_carry_pair(rng, n);
+    }
+    let d = 1 + rng.below(2) as usize;
+    let j = rng.below(2) as usize;
+    let j0 = j + d + 2;
+    let ip = rng.below(2) as usize;
+    let i = ip + d;
+    if j0 >= n || i >= n {
+        return mul_carry_pair(rng, n);
+    }
+    let big = |rng: &mut Rng| *rng.pick(&[M, M, M - 1, M - 1, 1u64 << 31, (1 << 31) + 1, M - 2]);
+    a[ip] = if rng.coin(3, 4) { M } else { big(rng) };
+    a[i] = big(rng);
+    b[j] = big(rng);
+    b[j + d] = big(rng);
+    b[j0] = *rng.pick(&[1u64, 1, 1, 2, M]);
+    // a longer run of ones above: further lone 1s make limbs j0+1.. equal MAX as well
+    let mut k = j0 + 1;
+    while k < n && rng.coin(1, 3) {
+        b[k] = 1;
+        k += 1;
+    }
+    // light noise
+    if rng.coin(1, 4) {
+        let t = rng.below(n as u64) as usize;
+        if a[t] == 0 {
+            a[t] = *rng.pick(&BL);
+        }
+    }
+    if rng.coin(1, 2) { (a, b) } else { (b, a) }
+}
+
+/// (a, b) such that a + b (mode 0), a - b (mode 1) or 2a (mode 2, b unused) ripples a carry/borrow through a run of
+/// `len` limbs starting at limb `p`; the run may reach the top limb (overflow / negative result)
+fn ripple_pair(rng: &mut Rng, n: usize, mode: u64) -> (Vec<u64>, Vec<u64>) {
+    let mut a: Vec<u64> = (0..n).map(|_| if rng.coin(1, 3) { limb(rng) } else { 0 }).collect();
+    let mut b = vec![0u64; n];
+    if n == 0 {
+        return (a, b);
+    }
+    let p = rng.below(n as u64) as usize;
+    let len = rng.below((n - p) as u64 + 1) as usize; // 0..=n-p: may end exactly at the top
+    match mode {
+        0 => {
+            for x in a.iter_mut().skip(p).take(len) {
+                *x = M;
+            }
+            if p + len < n && rng.coin(1, 2) {
+                a[p + len] = *rng.pick(&[0u64, M - 1, M, 1 << 31]);
+            }
+            b[p] = *rng.pick(&[1u64, 1, 2, 1 << 31, M]);
+            if p > 0 && rng.coin(1, 3) {
+                // the carry into the run comes from the limb below
+                a[p - 1] = M;
+                b[p - 1] = *rng.pick(&[1u64, M]);
+                b[p] = *rng.pick(&[0u64, 0, 1]);
+            }
+        }
+        1 => {
+            for x in a.iter_mut().skip(p).take(len) {
+                *x = 0;
+            }
+            if p + len < n && rng.coin(2, 3) {
+                a[p + len] = *rng.pick(&[1u64, 1, 2, 1 << 31, M]);
+            }
+            b[p] = *rng.pick(&[1u64, 1, 2, 1 << 31, M]);
+        }
+        _ => {
+            // doubling: runs of 0xffffffff / 0x7fffffff / 0x80000000 limbs
+            let v = *rng.pick(&[M, M, (1u64 << 31) - 1, 1 << 31, M - 1]);
+            for x in a.iter_mut().skip(p).take(len) {
+                *x = v;
+            }
+            if p > 0 && rng.coin(1, 2) {
+                a[p - 1] = *rng.pick(&[1u64 << 31, M]);
+            }
+        }
+    }
+    let _ = &mut b;
+    (a, b)
+}
+
 pub fn gen(rng: &mut Rng, thorough: bool, out: &mut Vec<String>) {
     let f = fmt_list_u64;
     // ---- exhaustive small grid: all limb vectors over {0,1,2^31,2^32-1} for N <= 2, every binary operator
@@ -410,9 +560,36 @@ pub fn gen(rng: &mut Rng, thorough: bool, out: &mut Vec<String>) {
         out.push(format!("u32s try_u128 {} {}", n, u128::MAX));
         out.push(format!("u32s try_u64 {} {}", n, u64::MAX));
     }
+    // ---- carry-directed streams (N = 3..8): multiplication with runs of all-ones limbs in the accumulator, and
+    //      add / sub / mul_two ripples through runs of up to N limbs
+    let carry_count = if thorough { 600_000 } else { 6_000 };
+    for i in 0..carry_count {
+        let n = *rng.pick(&[3usize, 4, 5, 5, 5, 6, 6, 6, 7, 8]);
+        match i % 6 {
+            0 | 1 | 2 => {
+                let (a, b) = if i % 6 == 0 { mul_template_pair(rng, n) } else { mul_carry_pair(rng, n) };
+                out.push(format!("u32s mul {} {} {}", n, f(&a), f(&b)));
+            }
+            3 => {
+                let n = *rng.pick(&[1usize, 2, 3, 4, 5, 6, 7, 8]);
+                let (a, b) = ripple_pair(rng, n, 0);
+                out.push(format!("u32s add {} {} {}", n, f(&a), f(&b)));
+            }
+            4 => {
+                let n = *rng.pick(&[1usize, 2, 3, 4, 5, 6, 7, 8]);
+                let (a, b) = ripple_pair(rng, n, 1);
+                out.push(format!("u32s sub {} {} {}", n, f(&a), f(&b)));
+            }
+            _ => {
+                let n = *rng.pick(&[1usize, 2, 3, 4, 5, 6, 7, 8]);
+                let (a, _) = ripple_pair(rng, n, 2);
+                out.push(format!("u32s mul_two {} {}", n, f(&a)));
+            }
+        }
+    }
     let count = if thorough { 1_500_000 } else { 6_000 };
     for _ in 0..count {
-        let n = *rng.pick(&[0usize, 1, 1, 2, 2, 3, 3, 3, 4, 4, 4, 5, 5, 5]);
+        let n = *rng.pick(&[0usize, 1, 1, 2, 2, 3, 3, 3, 4, 4, 4, 5, 5, 5, 6, 6, 7, 8]);
         let top = BigUint::one() << (32 * n);
         let a = operand(rng, n);
         let mut b = operand(rng, n);
